@@ -200,9 +200,11 @@ def post_rotate_region(ctx, a, result, old):
         return None
     lab = ids(H, W)
     exp = ref_rot(lab[r[0]:r[1], r[2]:r[3]], tuple(c))
-    g = as_tuple(result)
+    from autoarray.layout.region import Region2D
+    g = as_tuple(result) if isinstance(result, Region2D) else None   # a bare tuple cannot slice anything
     ok = g is not None and inside(g, H, W) and np.array_equal(ref_rot(lab, tuple(c))[g[0]:g[1], g[2]:g[3]], exp)
-    return (ok, {"region": r, "shape_native": (H, W), "roe_corner": tuple(c), "got": g, "expected_content": exp})
+    return (ok, {"region": r, "shape_native": (H, W), "roe_corner": tuple(c), "got": g, "returned_type": type(result).__name__,
+                 "expected_content": exp})
 
 
 def post_region_after_extraction(ctx, a, result, old):
@@ -382,6 +384,10 @@ def run_rot(ctx, u):
                 arg = r if form == "tuple" else aa.Region2D(region=r)
                 ok, rr = ctx.guarded("rotate.commute", lu.rotate_region_via_roe_corner_from, region=arg, shape_native=(H, W), roe_corner=c)
                 if not ok:
+                    continue
+                isreg = isinstance(rr, aa.Region2D)
+                ctx.check(isreg, "rotate.returns_region", shape=(H, W), region=r, corner=c, form=form, returned_type=type(rr).__name__)
+                if not isreg:
                     continue
                 g = as_tuple(rr)
                 inb = g is not None and inside(g, H, W)
@@ -569,6 +575,9 @@ def run_sub(ctx, u):
                         plan_.append((axis + "_front_past_parent", (p0, p1)))
             for k in range(1, size + 1):
                 plan_.append((axis + "_front_from_end", k))
+            # more rows / columns than the parent has: still that many, ending at the parent's far edge
+            for k in range(size + 1, min(size + PAD, y1 if axis == "parallel" else x1) + 1):
+                plan_.append((axis + "_front_from_end_past_parent", k))
             room = (H - y1 if axis == "parallel" else W - x1) + 1
             for p0 in range(room):
                 for p1 in range(p0 + 1, room + 1):
@@ -603,6 +612,14 @@ def run_sub(ctx, u):
             elif kind == "serial_front_from_end":
                 ok, s = ctx.guarded(mon, R.serial_front_region_from, pixels_from_end=p)
                 exp = parent[:, cols - p:]
+            elif kind == "parallel_front_from_end_past_parent":
+                mon = "sub.parallel_front_from_end"
+                ok, s = ctx.guarded(mon, R.parallel_front_region_from, pixels_from_end=p)
+                exp = canvas[y1 - p:y1, x0:x1]
+            elif kind == "serial_front_from_end_past_parent":
+                mon = "sub.serial_front_from_end"
+                ok, s = ctx.guarded(mon, R.serial_front_region_from, pixels_from_end=p)
+                exp = canvas[y0:y1, x1 - p:x1]
             elif kind == "parallel_trailing":
                 ok, s = ctx.guarded(mon, R.parallel_trailing_region_from, pixels=p)
                 exp = below[p[0]:p[1], :]
@@ -674,6 +691,14 @@ def run_valid(ctx, u):
                         ctx.check(rej, "valid.region2d.reject", region=t, outcome=repr(what))
                         if rej:
                             ctx.classes["rejected_by:" + what] += 1
+                        # the same tuple handed to the rotation utility: an empty extent stays empty under every mirror, a
+                        # negative coordinate stays negative for the corner that does not move anything
+                        empty = y0 >= y1 or x0 >= x1
+                        for c in CORNERS:
+                            if empty or c == (1, 0):
+                                rj, wh = rejected(lambda: ctx.lu.rotate_region_via_roe_corner_from(
+                                    region=t, shape_native=(B + 1, B + 1), roe_corner=c))
+                                ctx.check(rj, "valid.rotate_rejects_invalid", region=t, corner=c, outcome=repr(wh))
                     why = "valid" if valid else ("negative" if min(t) < 0 else ("empty_rows" if y0 >= y1 else "empty_cols"))
                     ctx.case("valid2d", t, cls=["tuple_" + why], sample=lambda: {"kind": "validity", "region": list(t), "valid": valid})
     for x0 in vals:
@@ -724,6 +749,10 @@ def run_r1d(ctx, u):
                 ok, s = ctx.guarded("r1d.front_from_end", R.front_region_from, pixels_from_end=k)
                 if ok:
                     ctx.check(same(s, parent[size - k:]), "r1d.front_from_end", L=L, region=r, pixels_from_end=k, got=as_tuple(s))
+            for k in range(size + 1, min(size + PAD, x1) + 1):
+                ok, s = ctx.guarded("r1d.front_from_end", R.front_region_from, pixels_from_end=k)
+                if ok:
+                    ctx.check(same(s, line[x1 - k:x1]), "r1d.front_from_end", L=L, region=r, pixels_from_end=k, got=as_tuple(s))
             room = L - x1 + 1
             for p0 in range(room):
                 for p1 in range(p0 + 1, room + 1):
